@@ -190,7 +190,9 @@ pub fn dispatch(op: &str, a: &[&str]) -> Option<Ans> {
             let nr = crypto_pwhash_str_needs_rehash(&s, ops, mem);
             let nr2 = crypto_pwhash_str_needs_rehash(&s, ops + 1, mem);
             let nr3 = crypto_pwhash_str_needs_rehash(&s, ops, mem + 1024);
-            (format!("verify={}{} reencode={} rehash={:?}{:?}{:?}", res(&r1), res(&r2), re, nr.ok(), nr2.ok(), nr3.ok()), "verify=okerr reencode=same rehash=Some(false)Some(true)Some(true)".into())
+            // the object parsed from the string must verify exactly like the classic function (the string names its algorithm)
+            let ov = match &p { Ok(p) => format!("{}{}", res(&p.verify(&pwd)), res(&p.verify(&wrong))), Err(_) => "parse-failed".to_string() };
+            (format!("verify={}{} objverify={} reencode={} rehash={:?}{:?}{:?}", res(&r1), res(&r2), ov, re, nr.ok(), nr2.ok(), nr3.ok()), "verify=okerr objverify=okerr reencode=same rehash=Some(false)Some(true)Some(true)".into())
         }
         // pwhash_keypair <opslimit> <memlimit> <pwd> <salt>
         "pwhash_keypair" => {
